@@ -90,6 +90,73 @@ def kernel_harness(kvz, pre, p, numderiv, cy, ns, what=('oracle', 'props', 'sing
     return run, u
 
 
+def load_splev_routes(enc=None, py_transform=None):
+    """bspline.ev / bspline.deriv with scipy.interpolate.splev bound to its documented contract (FITPACK splev/splder):
+    splev(x, (t, c, k), der) = sum_i c_i N_{i,k,t}^(der)(x) for 0 <= der <= k (right-continuous, right end closed), ValueError otherwise"""
+    def splev(x, tck, der=0, ext=0):
+        t, c, k = tck
+        if not (0 <= der <= k): raise ValueError('0<=der=%d<=k=%d must hold' % (der, k))
+        tz = [lift(v) for v in list(t)]
+        out = np.empty(len(x), dtype=object)
+        for r, u in enumerate(list(x)):
+            orc = Oracle(tz, k, lift(u))
+            out[r] = Sym(z3.Sum([lift(c[i]) * orc.dN(i, der) for i in range(len(tz) - k - 1)]))
+        return out
+    sc = _NS({}); sc.interpolate = _NS({'splev': splev})
+    ns = {'np': SymNP(), 'scipy': sc}
+    srcload.load_defs('pyiga/bspline.py', ['ev', 'deriv'], ns, encoded=enc, transform=py_transform)
+    return ns
+
+
+def splev_harness(kvz, pre, p, cy, sns):
+    """ev/deriv (the FITPACK route) = sum_i c_i N_i^(d) with the values of the active_deriv route, for every derivative order 0..p"""
+    u = z3.Real('u')
+    n = len(kvz) - p - 1
+    cs = [z3.Real('c%d' % i) for i in range(n)]
+
+    def run(c):
+        for q in pre: c.assume(q)
+        c.assume(z3.And(u >= kvz[0], u <= kvz[-1]))
+        kv = KV(kvz, p)
+        coeffs = np.empty(n, dtype=object)
+        for i, t in enumerate(cs): coeffs[i] = Sym(t)
+        nodes = np.empty(1, dtype=object); nodes[0] = Sym(u)
+        span = cy['pyx_findspan'](kv.kv, p, Sym(u)); first = span - p
+        res = np.asarray(cy['active_deriv'](kv, Sym(u), p))
+        v = sns['ev'](kv, coeffs, nodes)
+        c.check(val(v[0]) == z3.Sum([cs[first + j] * val(res[0, j]) for j in range(p + 1)]), 'ev (splev route) = sum c_i N_i (active_ev route)')
+        for d in range(p + 1):
+            dv = sns['deriv'](kv, coeffs, d, nodes)
+            c.check(val(np.asarray(dv).ravel()[0]) == z3.Sum([cs[first + j] * val(res[d, j]) for j in range(p + 1)]),
+                    'deriv(order d <= p) (splev route) = sum c_i N_i^(d) (active_deriv route)')
+        c.witness('splev routes')
+    return run, u, cs
+
+
+REPLAY_SPLEV = r'''
+import sys, json, numpy as np
+from fractions import Fraction as F
+w = json.load(sys.stdin)
+from pyiga import bspline
+p = w['p']; kv = bspline.KnotVector(np.array([float(F(x)) for x in w['kv']]), p)
+rng = np.random.RandomState(3)
+bad = []
+br = np.unique(kv.kv)
+us = np.concatenate(([float(F(w['u']))], (br[:-1] + br[1:]) / 2, br[:-1] + 0.3 * (br[1:] - br[:-1])))
+for c in (np.array([float(F(x)) for x in w['c']]), rng.rand(kv.numdofs)):
+    try:
+        D = bspline.collocation_derivs(kv, us, derivs=p)
+        if not np.allclose(bspline.ev(kv, c, us), D[0] @ c, atol=1e-9): bad.append('ev')
+        for d in range(p + 1):
+            got = np.asarray(bspline.deriv(kv, c, d, us), dtype=float)
+            ref = D[d] @ c
+            if got.shape != ref.shape or not np.allclose(got, ref, rtol=1e-7, atol=1e-8 * (1 + abs(ref).max())): bad.append('deriv order %d' % d)
+    except Exception as e:
+        bad.append('exception %s: %s' % (type(e).__name__, e))
+print(json.dumps({'reproduced': bool(bad), 'bad': sorted(set(bad))}))
+'''
+
+
 def colloc_harness(kvz, pre, p, derivs, npts, cy, ns):
     us = [z3.Real('u%d' % i) for i in range(npts)]
     n = len(kvz) - p - 1
@@ -182,14 +249,14 @@ def main():
     enc = srcload.Encoded()
     cy, ns = load_code(enc)
     run.add_encoded(enc)
-    run.stubs += ['np allocation -> object arrays (symnp)', 'scipy.sparse.coo_matrix(...).tocsr() -> dense object matrix (symsparse)']
+    run.stubs += ['scipy.interpolate.splev -> contract stub: sum_i c_i N_i^(der)(x) for 0 <= der <= k (right-continuous), ValueError otherwise', 'np allocation -> object arrays (symnp)', 'scipy.sparse.coo_matrix(...).tocsr() -> dense object matrix (symsparse)']
     run.assumptions += ['doubles interpreted as exact reals ("to rounding accuracy" is outside the claim)',
                         'documented precondition only: open knot vector, non-decreasing knots, interior multiplicity <= p, u in [a,b]',
                         'C array reads with negative index (numderiv > p+1 reads NDU[-1,..]; result multiplied by fac = 0) follow numpy wrap-around here; in C this is an out-of-bounds read -- reported separately in DESIGN.md, not decided']
     run.bounds = {'symbolic knots': 'p<=3 quick / p<=4 thorough, <=3 (quick) / <=5 (thorough) interior knots, coincident knots included',
                   'concrete rational knots, symbolic u': 'p<=6 quick (8 on two representatives) / p<=12 thorough',
                   'derivative orders': '0..p+2', 'collocation': '1-2 symbolic nodes, derivs<=2'}
-    run.out_of_scope += ['rounding error', 'bspline.ev/deriv (scipy splev, FFI)', 'p>12', 'tensor-product evaluators (see C07)']
+    run.out_of_scope += ['rounding error', 'FITPACK itself (scipy splev is FFI): bspline.ev/deriv are checked under the documented splev contract, the real replay runs the real FITPACK', 'p>12', 'tensor-product evaluators (see C07)']
 
     def do(group, h, bound, kvz, p, us, nd, to=60000):
         st = sx.explore(h, timeout_ms=to, export_every=11 if thorough else 0, max_paths=5000)
@@ -245,6 +312,24 @@ def main():
             h, us = colloc_harness(kvz, [], p, 2, 2, cy, ns)
             do('concrete-knots collocation', h, {'p': p, 'breaks': [str(b) for b in breaks], 'mults': mults}, kvz, p, us, 2)
 
+    # ---- (c) the FITPACK route ev/deriv under the splev contract
+    if run.want('splev'):
+        enc2 = srcload.Encoded(); sns = load_splev_routes(enc2); run.add_encoded(enc2)
+        scfg = [('sym', 1, 1), ('sym', 2, 1), ('sym', 2, 2)] + ([('sym', 3, 2), ('sym', 3, 3)] if thorough else [])
+        scfg += [('con', 3, ([0, F(1, 3), F(1, 2), 1], [1, 3])), ('con', 4, ([0, F(1, 4), 1], [2]))] + ([('con', 6, ([0, F(1, 3), 1], [4]))] if thorough else [])
+        for kind, p, arg in scfg:
+            if kind == 'sym': kvz, pre = symbolic_knots(p, arg); bound = {'p': p, 'interior knots': arg}
+            else:
+                kvz, kvq = concrete_knots(p, arg[0], arg[1]); pre = []; bound = {'p': p, 'breaks': [str(b) for b in arg[0]], 'mults': arg[1]}
+            h, u, cs = splev_harness(kvz, pre, p, cy, sns)
+            st = sx.explore(h, timeout_ms=120000 if thorough else 60000, max_paths=5000)
+            run.absorb(st, 'splev routes (ev/deriv)', bound=bound, sample={'obligation': 'ev/deriv', **bound})
+            for cex in st.cex:
+                m = cex['model']
+                w = {'kv': [str(F(sx.model_value(m, t))) for t in kvz], 'p': p, 'u': str(F(sx.model_value(m, u))), 'c': [str(F(sx.model_value(m, t))) for t in cs], 'kind': 'splev'}
+                r = realbuild.run_real(REPLAY_SPLEV, w)
+                run.report('splev:%s' % cex['name'][:50], '%s fails for p=%d kv=%s u=%s (%s)' % (cex['name'], p, w['kv'], w['u'], r['bad']), w, r['reproduced'])
+
     # ---- translator validation on the repo's test inputs
     if run.want('validate'):
         validate(run)
@@ -265,6 +350,16 @@ def main():
         canary('findspan: kv[c] > u -> >=', 'if kv[c] > u:', 'if kv[c] >= u:')
         canary('derivative factor', 'fac *= pk', 'fac *= (pk + 1)')
         canary('single_ev degree-0 indicator', 'if u >= kv[i+j] and u < kv[i+j+1]:', 'if u > kv[i+j] and u < kv[i+j+1]:', where='py')
+        def canary2(name, pat, rep):
+            if pat not in srcload.read('pyiga/bspline.py'): run.canary(name, False, skipped=True); return
+            sns2 = load_splev_routes(py_transform=lambda t: t.replace(pat, rep, 1))
+            kvz, pre = symbolic_knots(2, 1)
+            h, _, _ = splev_harness(kvz, pre, 2, cy, sns2)
+            st = sx.explore(h, timeout_ms=60000)
+            run.canary(name, bool(st.cex))
+        canary2('deriv: highest derivative order treated as zero', "    return scipy.interpolate.splev(u, (knotvec.kv, coeffs, knotvec.p), der=deriv)",
+                "    if deriv >= knotvec.p: return np.zeros(np.shape(u))\n    return scipy.interpolate.splev(u, (knotvec.kv, coeffs, knotvec.p), der=deriv)")
+        canary2('ev: evaluates with degree p-1', 'return scipy.interpolate.splev(u, (knotvec.kv, coeffs, knotvec.p))', 'return scipy.interpolate.splev(u, (knotvec.kv[1:-1], coeffs, knotvec.p - 1))')
     run.finish()
 
 
@@ -301,7 +396,7 @@ def validate(run):
 
 def replay_file(path):
     w = json.load(open(path))['witness']
-    r = realbuild.run_real(REPLAY, w)
+    r = realbuild.run_real(REPLAY_SPLEV if w.get('kind') == 'splev' else REPLAY, w)
     print(json.dumps(r)); print('REPRODUCED' if r['reproduced'] else 'NOT-REPRODUCED')
     sys.exit(1 if r['reproduced'] else 0)
 
